@@ -2,26 +2,36 @@
 
 PID = "C20"
 CLAIM = True
-MANIFEST_TEXT = ("Lean 4 theorems (28, all sizes/entries/indices/store states) about an executable model of dune-common's Python bindings "
+MANIFEST_TEXT = ("Lean 4 theorems (31, all sizes/entries/indices/store states/record sizes and byte strides) about an executable model of dune-common's Python bindings "
                  "for dense vectors: construction from list/tuple/args = first n numbers zero-filled (the binding's copy loop refines "
-                 "it), the strided buffer constructor = the same for the buffer's entries, DynamicVector's list constructor; index "
+                 "it), the buffer constructor over a buffer_info in bytes = the same for the buffer's entries whenever NumPy calls the buffer "
+                 "aligned (which the format check enforces), byte addressing ptr+j*stride hits exactly the cell a view denotes for every "
+                 "record size while whole-item addressing ptr[j*(stride/w)] does so iff w divides the stride, DynamicVector's list constructor; index "
                  "normalisation and IndexError for every integer index (no bound), set/get; the legacy iteration protocol yields exactly "
                  "the entries and is ended by the IndexError at n; slices (CPython index adjustment) denote only positions inside the "
                  "vector and are exact; views, slice views and NumPy-backed C++ vectors alias the vector's cells, copies are independent; "
                  "every bound arithmetic/comparison/norm/string operation equals the plain C++ vector operation on the entries, incl. "
                  "FieldVector<K,1> scalar arithmetic and operands given as tuple/NumPy array/strided view/array.array; tuple vectors "
                  "preserve entry types and values; and, by induction over programs, a store invariant (registers name existing vectors, "
-                 "FieldVector<K,n> has n cells, every view entry is an existing cell) holds after every program of bound operations. "
+                 "FieldVector<K,n> has n cells, every view entry is an existing cell and its byte address is where that cell starts) holds after "
+                 "every program of bound operations. "
                  "Tied to the source on every run: _common (both as configured with just-in-time FieldVector classes and with "
                  "DUNE_ENABLE_PYTHONMODULE_PRECOMPILE: FieldVector_double_0..14 from registerfvector.cc), _typeregistry and the JIT modules "
                  "(FieldVector<double,n>, TupleVector<...>, two NumPyVector algorithms) are rebuilt from the current working tree's sources "
                  "whenever any file they depend on changed, the current python/dune package is imported, and >=32000 seeded operation programs "
-                 "per run are executed on the real bindings, on the Lean model and on an independent plain-Python-list shadow.")
+                 "per run are executed on the real bindings, on the Lean model and on an independent plain-Python-list shadow; a second "
+                 "independent oracle snapshots every byte of a buffer object's allocation that is not part of an entry (gaps, padding and "
+                 "other fields of packed records) and fails when one changes.")
 MANIFEST_NOTE = ("Partial by nature: CPython, pybind11 (casting/overload resolution) and NumPy are exercised, not modelled; values are "
                  "integer-valued doubles |x|<=2^24; FieldVector sizes 1,2,3,4,5,6,9 just-in-time generated and 0..14 precompiled, five tuple "
                  "shapes; DynamicVector operands of unequal length are excluded (undefined in C++ as well); the dune-py cmake/make builder is "
                  "replaced by a direct g++ call on the source text the current generator produces. No translator: the source is pybind11 "
                  "registration glue, the model is hand-written and tied by the differential run only. "
+                 "Buffer layouts: contiguous, strided, reversed, columns, read-only broadcast (stride 0) and fields of packed records "
+                 "(byte strides that are no multiple of the item size, unaligned entries; 16 layouts) for 10 NumPy element types incl. "
+                 "non-native byte order; an unaligned buffer of doubles may be rejected by the FieldVector constructor (it is: NumPy exports "
+                 "'=d') or constructed exactly, both are accepted; writable zero-stride buffers are excluded. Runs on x86-64, where "
+                 "NumPyVector's unaligned double accesses are harmless. "
                  "Four defects found while building the check (negative indices in __setitem__/DynamicVector, FieldVector.copy() returning "
                  "zeros, NumPyVector ignoring strides, TypeError/OverflowError instead of IndexError for indices beyond ssize_t) are repaired "
                  "by fixes/C20_*.patch (applied); the model describes the repaired code.")
@@ -40,7 +50,10 @@ RULE = ("cases: seeded programs of 3-14 bound operations over 4 vector registers
         "vectors, lists (short/long), tuples, NumPy arrays and views, array.array, float and int scalars incl. reflected and __div__, "
         "in-place operators, assign, get/set with int and numpy.int64 indices biased to {-n-1,-n,-1,0,n-1,n,n+1,+-2^31,+-2^33,+-2^63,"
         "+-2^64,10^30}, len, iteration, str/repr, slices, == !=, norms, dot incl. reflected, NumPy views/copies/slice views with reads "
-        "and writes, NumPyVector operations on (strided) views and a NumPyVector owning its array; tuple vectors by value and by "
+        "and writes, buffer objects of 18 element types in 5 element-strided layouts and 16 packed-record layouts q<R>o<F>s<K> (byte "
+        "strides 9..39, either direction, field offsets 0..12) as constructor arguments and as arrays under NumPyVector operations (both "
+        "call paths; half of the new buffer objects are used by a NumPyVector at once), read-only broadcast buffers, NumPyVector "
+        "operations on (strided) views and a NumPyVector owning its array; tuple vectors by value and by "
         "reference incl. negative/huge indices; distinct = distinct op lines; non-trivial = at least one operation was executed on the "
         "real bindings and compared with the shadow")
 ASSUMPTIONS = [
@@ -51,6 +64,10 @@ ASSUMPTIONS = [
     "entries are integer-valued doubles with |x| <= 2^24 so that all arithmetic is exact; two_norm is checked as sqrt(two_norm2)",
     "DynamicVector arithmetic/comparison with operands of different length is not exercised (undefined behaviour in the C++ operators)",
     "indices of NumPy's own indexing (views) are limited to |i| <= 2^40: beyond 2^63 NumPy, not the bindings, decides the exception",
+    "NumPy's allocations are at least 8-byte aligned (the rule that predicts ndarray.flags.aligned from the layout is cross-checked "
+    "against NumPy on every unaligned case); x86-64: dereferencing an unaligned double* in NumPyVector works",
+    "for a buffer of doubles NumPy does not call aligned the FieldVector constructor may raise ValueError or return exactly the "
+    "buffer's numbers; the register is not bound in either case",
 ]
 TRUSTED = ["CPython/pybind11/NumPy, g++/libstdc++", "harness/c20_py.py (builder, executor, shadow oracle) + Driver/C20.lean parsing/printing"]
 
